@@ -71,17 +71,25 @@ type commitContinuation struct {
 // enclosingCommitContinuation climbs from fn to the function literal that is the `ok`
 // argument of concurrent.NewOnce handed to WaitForCommitOffsetAsync.
 func enclosingCommitContinuation(h *H, fn *ssa.Function) commitContinuation {
-	for f := fn; f != nil; f = f.Parent() {
+	// climb through enclosing literals and, for an extracted helper, through its only caller
+	up := func(f *ssa.Function) *ssa.Function {
+		if p := f.Parent(); p != nil {
+			return p
+		}
+		if site := ir.SingleCallSite(f); site != nil {
+			return site.Parent()
+		}
+		return nil
+	}
+	steps := 0
+	for f := fn; f != nil && steps < 12; f, steps = up(f), steps+1 {
 		for _, mc := range ir.ClosureSites(f) {
-			if mc.Referrers() == nil {
-				continue
-			}
-			for _, r := range *mc.Referrers() {
+			for _, r := range closureUses(mc) {
 				once, ok := r.(*ssa.Call)
 				if !ok || !h.P.Matches(once.Common(), newOnce) {
 					continue
 				}
-				if argOf(once.Common(), 0) != mc {
+				if closureArg(argOf(once.Common(), 0)) != f {
 					// it is the failure continuation
 					continue
 				}
@@ -112,7 +120,7 @@ type appendSite struct {
 
 func workerAppend(h *H, rule string, worker *ssa.Function) *appendSite {
 	var sites []ssa.CallInstruction
-	for _, f := range ir.WithAnon(worker) {
+	for _, f := range regionOf(worker) {
 		sites = append(sites, h.P.CallsIn(f, walAppendSync, walAppend, walAppendAsync)...)
 	}
 	if len(sites) != 1 {
@@ -138,7 +146,7 @@ func checkCommitContinuation(h *H, worker *ssa.Function, app *appendSite, in ssa
 		return false, cc.Problem
 	}
 	off := argOf(cc.W.Common(), 1)
-	if app.Offset == nil || !ir.SameValue(off, app.Offset) {
+	if app.Offset == nil || ir.CanonX(off) != ir.CanonX(app.Offset) {
 		return false, fmt.Sprintf("the commit wait is for %s, not for the offset placed in the log entry (%s)", ir.Describe(off), ir.Describe(app.Offset))
 	}
 	if app.Callback == nil {
@@ -183,7 +191,12 @@ func ruleR01a(h *H) {
 		return
 	}
 	n := 0
-	for _, f := range ir.WithAnon(worker) {
+	region := regionOf(worker)
+	inRegion := map[*ssa.Function]bool{}
+	for _, f := range region {
+		inRegion[f] = true
+	}
+	for _, f := range region {
 		ir.Instrs(f, func(in ssa.Instruction) {
 			call := ir.CallOf(in)
 			if call == nil {
@@ -191,11 +204,14 @@ func ruleR01a(h *H) {
 				return
 			}
 			usesCb := false
-			if call.IsInvoke() && ir.Canon(call.Value) == cb {
+			if call.IsInvoke() && ir.CanonX(call.Value) == ssa.Value(cb) {
 				usesCb = true
 			}
 			for _, a := range call.Args {
-				if ir.Canon(a) == cb {
+				if ir.CanonX(a) == ssa.Value(cb) {
+					if callee := call.StaticCallee(); callee != nil && inRegion[callee] {
+						continue // handed to an extracted helper that is analysed as part of the worker
+					}
 					// the callback escapes into another function
 					h.Unknown(rule, fmt.Sprintf("%s: client callback passed to %s", ir.FuncName(f), describeCallee(call)), h.pos(in),
 						"the client callback escapes from the write worker; completions cannot be enumerated")
